@@ -240,11 +240,14 @@ func run(c *Ctx) {
 	if c.Thorough() {
 		batches, per, limit = 12, 20, 20*time.Minute
 	}
+	for _, sc := range scenarioNames[:1] {
+		spawn("scenario-"+sc, 110*time.Second, "scenario", sc)
+	}
 	for k := 0; k < batches; k++ {
 		spawn(fmt.Sprintf("histories-batch%d", k), limit, "histories", fmt.Sprint(c.Seed*1000+uint64(k)), c.Tier, fmt.Sprint(per))
 	}
-	for _, sc := range scenarioNames {
-		spawn("scenario-"+sc, 60*time.Second, "scenario", sc)
+	for _, sc := range scenarioNames[1:] {
+		spawn("scenario-"+sc, 110*time.Second, "scenario", sc)
 	}
 	wg.Wait()
 	for _, name := range order {
